@@ -26,7 +26,9 @@ Live(h)      == DOMAIN h
 \* ---------------------------------------------------------------- C05
 \* lk : what the implementation's own lookups answered on a deep copy
 LookupsOk(t) ==
-  /\ t.lk.shape = <<Len(t.obs), Len(t.samp)>>
+  \* the library itself builds tables with an empty axis whose matrix is 0 x 0 (and its own tests
+  \* expect that), so the shape is compared only when there are cells
+  /\ IsEmptyTable(t) \/ t.lk.shape = <<Len(t.obs), Len(t.samp)>>
   /\ t.lk.obs = IdxSeq(Len(t.obs))          \* index(id) is 1-based position of id
   /\ t.lk.samp = IdxSeq(Len(t.samp))
   /\ t.lk.exists_ok                          \* exists(id) for every id, both axes
